@@ -38,6 +38,10 @@ trait Coll {
     fn delete(&mut self, m: &mut Module, rid: usize) -> bool;
     fn get(&self, m: &Module, rid: usize) -> Option<u32>;
     fn iter(&self, m: &Module) -> Vec<(usize, u32)>;
+    /// the same listing through the collection's `iter_mut` (None: it has none)
+    fn iter_mut(&self, _m: &mut Module) -> Option<Vec<(usize, u32)>> {
+        None
+    }
     fn len(&self, _m: &Module) -> i64 {
         -1
     }
@@ -48,7 +52,7 @@ trait Coll {
 }
 
 macro_rules! simple_coll {
-    ($name:ident, $idty:ty, $field:ident, add: |$m:ident, $v:ident| $add:expr, tok: |$it:ident| $tok:expr $(, len: |$lm:ident| $len:expr)? $(, find: |$fm:ident, $fv:ident| $find:expr)?) => {
+    ($name:ident, $idty:ty, $field:ident, add: |$m:ident, $v:ident| $add:expr, tok: |$it:ident| $tok:expr $(, len: |$lm:ident| $len:expr)? $(, find: |$fm:ident, $fv:ident| $find:expr)? $(, muti: $muti:ident)?) => {
         #[derive(Default)]
         struct $name {
             ids: Vec<$idty>,
@@ -80,6 +84,11 @@ macro_rules! simple_coll {
             fn iter(&self, m: &Module) -> Vec<(usize, u32)> {
                 m.$field.iter().map(|$it| ($it.id().index(), $tok)).collect()
             }
+            $( fn iter_mut(&self, m: &mut Module) -> Option<Vec<(usize, u32)>> {
+                let $muti = ();
+                let _ = $muti;
+                Some(m.$field.iter_mut().map(|$it| ($it.id().index(), $tok)).collect())
+            } )?
             $( fn len(&self, $lm: &Module) -> i64 { $len } )?
             $( fn find(&self, $fm: &Module, $fv: u32) -> Option<i64> { Some($find) } )?
         }
@@ -97,10 +106,12 @@ simple_coll!(Types, TypeId, types,
 simple_coll!(Memories, MemoryId, memories,
     add: |m, v| m.memories.add_local(false, false, v as u64, None, None),
     tok: |it| it.initial as u32,
-    len: |m| m.memories.len() as i64);
+    len: |m| m.memories.len() as i64,
+    muti: yes);
 simple_coll!(Tables, TableId, tables,
     add: |m, v| m.tables.add_local(false, v as u64, None, RefType::Funcref),
-    tok: |it| it.initial as u32);
+    tok: |it| it.initial as u32,
+    muti: yes);
 simple_coll!(Globals, GlobalId, globals,
     add: |m, v| m.globals.add_local(ValType::I32, false, false, ConstExpr::Value(IrValue::I32(v as i32))),
     tok: |it| match it.kind { GlobalKind::Local(ConstExpr::Value(IrValue::I32(x))) => x as u32, _ => 9999 });
@@ -109,20 +120,23 @@ simple_coll!(Datas, DataId, data,
     tok: |it| it.value.first().copied().unwrap_or(255) as u32);
 simple_coll!(Elements, ElementId, elements,
     add: |m, v| m.elements.add(ElementKind::Passive, ElementItems::Expressions(RefType::Funcref, vec![ConstExpr::RefNull(RefType::Funcref); v as usize])),
-    tok: |it| match &it.items { ElementItems::Expressions(_, x) => x.len() as u32, ElementItems::Functions(x) => x.len() as u32 });
+    tok: |it| match &it.items { ElementItems::Expressions(_, x) => x.len() as u32, ElementItems::Functions(x) => x.len() as u32 },
+    muti: yes);
 simple_coll!(Exports, ExportId, exports,
     add: |m, v| {
         let g = m.globals.add_local(ValType::I32, false, false, ConstExpr::Value(IrValue::I32(0)));
         m.exports.add(&format!("e{}", v), g)
     },
-    tok: |it| it.name[1..].parse().unwrap_or(9999));
+    tok: |it| it.name[1..].parse().unwrap_or(9999),
+    muti: yes);
 simple_coll!(Imports, ImportId, imports,
     add: |m, v| {
         let ty = m.types.add(&[], &[]);
         m.add_import_func("env", &format!("i{}", v), ty).1
     },
     tok: |it| it.name[1..].parse().unwrap_or(9999),
-    find: |m, v| m.imports.find("env", &format!("i{}", v)).map(|i| i.index() as i64).unwrap_or(-1));
+    find: |m, v| m.imports.find("env", &format!("i{}", v)).map(|i| i.index() as i64).unwrap_or(-1),
+    muti: yes);
 simple_coll!(Funcs, FunctionId, funcs,
     add: |m, v| {
         let mut b = FunctionBuilder::new(&mut m.types, &[], &[]);
@@ -131,7 +145,8 @@ simple_coll!(Funcs, FunctionId, funcs,
         b.finish(vec![], &mut m.funcs)
     },
     tok: |it| it.name.as_ref().and_then(|n| n[1..].parse().ok()).unwrap_or(9999),
-    find: |m, v| m.funcs.by_name(&format!("f{}", v)).map(|i| i.index() as i64).unwrap_or(-1));
+    find: |m, v| m.funcs.by_name(&format!("f{}", v)).map(|i| i.index() as i64).unwrap_or(-1),
+    muti: yes);
 
 // locals: no delete
 #[derive(Default)]
@@ -211,6 +226,17 @@ impl Coll for Customs {
             })
             .collect()
     }
+    fn iter_mut(&self, m: &mut Module) -> Option<Vec<(usize, u32)>> {
+        Some(
+            m.customs
+                .iter_mut()
+                .map(|(id, s)| {
+                    let p = self.ids.iter().position(|x| *x == id).map(|p| self.idx[p]).unwrap_or(usize::MAX);
+                    (p, s.name()[1..].parse().unwrap_or(9999))
+                })
+                .collect(),
+        )
+    }
 }
 
 // exports of functions, looked up by name (get_func + get_exported_func) and removed by name when the name is unique
@@ -241,6 +267,9 @@ impl Coll for ExportsByName {
     }
     fn iter(&self, m: &Module) -> Vec<(usize, u32)> {
         m.exports.iter().map(|e| (e.id().index(), e.name[1..].parse().unwrap_or(9999))).collect()
+    }
+    fn iter_mut(&self, m: &mut Module) -> Option<Vec<(usize, u32)>> {
+        Some(m.exports.iter_mut().map(|e| (e.id().index(), e.name[1..].parse().unwrap_or(9999))).collect())
     }
     fn find(&self, m: &Module, v: u32) -> Option<i64> {
         Some(match m.exports.get_func(format!("e{}", v)) {
@@ -421,7 +450,11 @@ pub fn replay(coll: &str, hid: &str, ops: &[Op]) -> Value {
             }
             "iter" => {
                 let items = c.iter(&m);
-                events.push(json!({"op": "iter", "items": items, "len": c.len(&m)}));
+                let mut ev = json!({"op": "iter", "items": items, "len": c.len(&m)});
+                if let Some(im) = quiet(|| c.iter_mut(&mut m)).unwrap_or(Some(vec![(usize::MAX, 0)])) {
+                    ev["items_mut"] = json!(im);
+                }
+                events.push(ev);
             }
             "find" => {
                 if let Some(r) = c.find(&m, op.v) {
